@@ -17,11 +17,11 @@ var collConc = vkit.NewCollector("C10", "TestConcurrentAppend", "2-8 goroutines 
 
 func TestMain(m *testing.M) { vkit.Main(m) }
 
-func TestMemory(t *testing.T)       { vkit.Check(t, collMem, Gen("memory"), Run) }
-func TestSQLite(t *testing.T)       { vkit.Check(t, collSQL, Gen("sqlite"), Run) }
-func TestSQLiteMemory(t *testing.T) { vkit.Check(t, collSQLMem, Gen("sqlitemem"), Run) }
+func TestMemory(t *testing.T)           { vkit.Check(t, collMem, Gen("memory"), Run) }
+func TestSQLite(t *testing.T)           { vkit.Check(t, collSQL, Gen("sqlite"), Run) }
+func TestSQLiteMemory(t *testing.T)     { vkit.Check(t, collSQLMem, Gen("sqlitemem"), Run) }
 func TestConcurrentAppend(t *testing.T) { vkit.Check(t, collConc, GenConc(""), RunConc) }
-func TestDurable(t *testing.T)      { vkit.Check(t, collDS, Gen("durable"), Run) }
+func TestDurable(t *testing.T)          { vkit.Check(t, collDS, Gen("durable"), Run) }
 
 var collProbe = vkit.NewCollector("C10", "TestKnownProbes", "deterministic replays of the inputs behind the listed known findings")
 
